@@ -42,6 +42,12 @@ def gen_cases(tier, seed):
         h = rtgen.rtap_chain(rng)
         if h is not None:
             cases.append("rtap " + hx(h + bytes(rng.randrange(256) for _ in range(rng.choice([0, 0, 5]))))); n_chain += 1
+    # many per-antenna words: around and far beyond the 16 entries the result can hold (up to the 41 that fit 255 bytes)
+    for n in list(range(13, 21)) + [30, 31, 32, 33, 40, 41, 42]:
+        for first in ((1, 2, 3, 5), (5,), (3,), ()):
+            h = rtgen.rtap_antennas(rng, n, first)
+            if h is not None:
+                cases.append("rtap " + hx(h)); cases.append("classify 1 " + hx(h + bytes([0xb4, 0]) + bytes(14)))
     # undefined bits 23..28 and namespace bits without EXT
     for _ in range(300 if q else 5000):
         p = rng.getrandbits(23) | (1 << rng.randrange(23, 31))
